@@ -1,23 +1,24 @@
 CONSTANTS
   MaxHeight = 2
   MaxCrashes = 1
-  PlanId = 1
-  EmitSched = FALSE
+  PlanId = 4
+  EmitSched = TRUE
   MaxAppRollback = 0
   MaxTamper = 0
-  InitialHeight = 1
+  InitialHeight = 5
   Weak_EndHeightBeforeSaveBlock = FALSE
   Weak_SaveStateBeforeAppCommit = FALSE
   Weak_NoABCIResponsesSaved = FALSE
   Weak_HandshakeReplaysCommitted = FALSE
   Weak_InitChainAlways = FALSE
   Weak_CommitWithoutMempoolLock = FALSE
-  Weak_NoFlushBeforeCommit = TRUE
+  Weak_NoFlushBeforeCommit = FALSE
   Weak_NoEndHeightRepair = FALSE
   Weak_HandshakeAcceptsAppAhead = FALSE
   Weak_EmptyStoreAcceptsAppAhead = FALSE
   Weak_NoInitialHeightBase = FALSE
 INIT Init
 NEXT Next
-INVARIANTS MempoolBracket
-CHECK_DEADLOCK FALSE
+INVARIANTS PcKnown JournalWellFormed HeightsAgree CursorsWithinOne WalEndImpliesStored NoStuck MempoolBracket ResponsesBeforeCommit
+POSTCONDITION PostSched
+CHECK_DEADLOCK TRUE
